@@ -131,13 +131,13 @@ def run(ctx):
         e2 = rebuild(small)
         return e2, hist.run_histories(ctx, [e2])[0]
 
-    for i in sm[:2]:
+    for i in sm[:1]:
         e2, o2 = shrink(i, "SM")
         out["spec_violations"].append({
             "events": [list(x) for x in e2],
             "script": [hist.sql_stmt(x[1]) if x[0] == "stmt" else x[0].upper() for x in e2 if x[0] in ("stmt", "flush", "crash")],
             "observed": o2, "what": "after recovery the tables differ from the effects of the acknowledged statements"})
-    for i in mm[:2]:
+    for i in mm[:1]:
         e2, o2 = shrink(i, "MM")
         out["model_mismatches"].append({
             "events": [list(x) for x in e2],
